@@ -1,13 +1,18 @@
 #!/bin/bash
-# Run every seeded change under a directory tree against the check of its property.
-# usage: tools/seedsweep.sh <root containing seed-<ID>/patchN.diff | seeded/<ID>-N/patch.diff> <outfile>
-root=$1; out=$2; : > $out
-for d in $root/seed-C*; do
-  id=$(basename $d | sed 's/seed-//')
-  for n in 1 2; do
-    [ -f $d/patch$n.diff ] || continue
-    echo "#### $id/$n" >> $out
-    /verif/tools/seedtest.sh $d/patch$n.diff $id >> $out 2>&1
-  done
+# Regression sweep: run every saved seeded change (seeded/*/patch.diff) against the
+# check(s) of its property; one line per seed in <outfile>.summary.
+# usage: tools/seedsweep.sh <outfile> [name-glob]
+out=${1:-/verif/.work/seedsweep.out}; glob=${2:-*}
+: > $out; : > $out.summary
+cd /verif
+for d in seeded/$glob/; do
+  n=$(basename $d)
+  [ -f $d/patch.diff ] || continue
+  prop=$(python3 -c "import json;print(json.load(open('$d/meta.json'))['property'])")
+  echo "#### $n ($prop)" >> $out
+  ./tools/seedtest.sh $d/patch.diff $prop >> $out 2>&1
+  rc=$(grep -o "== $prop exit=[0-9]*" $out | tail -1 | sed 's/.*exit=//')
+  cls=$(awk -v n="#### $n " 'index($0,n)==1{f=1;next} /^#### /{f=0} f&&/^violation class=/{print $2}' $out | sed 's/class=//' | sort -u | paste -sd,)
+  echo "$n $prop exit=$rc $cls" >> $out.summary
 done
-echo DONE >> $out
+echo DONE >> $out.summary
